@@ -7,19 +7,92 @@ use crate::{ChunkSize, NumThreads, Params};
 use orx_concurrent_iter::ConcurrentIterX;
 use orx_fixed_vec::PinnedVec;
 
+// NOTE on `static mut` under Kani 0.68: a mutable static whose initial bytes equal those of some
+// constant allocation of the program (e.g. `static mut N: usize = 1` and the `1` inside
+// `NumThreads::SEQUENTIAL`) is ALIASED with that constant -- writing the static changed the constant.
+// Every static here therefore starts from a unique bit pattern and is set by the harness before use.
+
 /// number of workers of the run (harness-chosen instance of "1 <= |S| <= max_num_threads")
-pub static mut NWORKERS: usize = 1;
+pub static mut NWORKERS: usize = 0xA5A5_0001;
 /// chunk size handed to worker t (harness-chosen instance of "S[t] >= 1, Exact(x) => S[t] == x")
-pub static mut CHUNK: [usize; MAXT] = [1; MAXT];
-pub static mut RUNNER_CALLS: usize = 0;
-pub static mut RUNNER_PARAMS: Option<Params> = None;
-pub static mut MERGE_CALLS: usize = 0;
+pub static mut CHUNK0: usize = 0xA5A5_0002;
+pub static mut CHUNK1: usize = 0xA5A5_0003;
+pub static mut CHUNK2: usize = 0xA5A5_0004;
+pub static mut RUNNER_CALLS: usize = 0xA5A5_0005;
+pub static mut MERGE_CALLS: usize = 0xA5A5_0006;
+/// parameters the kernel handed to the Runner, encoded: 0 = Auto, n = Max(n)
+pub static mut RUNNER_NT: usize = 0xA5A5_0007;
+/// 0 = Auto, 1 = Min, 2 = Exact
+pub static mut RUNNER_CS_KIND: usize = 0xA5A5_0008;
+pub static mut RUNNER_CS_VAL: usize = 0xA5A5_0009;
+
+pub fn chunk_of(t: usize) -> usize {
+    unsafe {
+        match t {
+            0 => CHUNK0,
+            1 => CHUNK1,
+            _ => CHUNK2,
+        }
+    }
+}
+
+pub fn set_run(workers: usize, c0: usize, c1: usize, c2: usize) {
+    unsafe {
+        NWORKERS = workers;
+        CHUNK0 = c0;
+        CHUNK1 = c1;
+        CHUNK2 = c2;
+        RUNNER_CALLS = 0;
+        MERGE_CALLS = 0;
+        RUNNER_NT = 0xA5A5_0017;
+        RUNNER_CS_KIND = 0xA5A5_0018;
+        RUNNER_CS_VAL = 0xA5A5_0019;
+    }
+}
+
+fn record_params(params: Params) {
+    unsafe {
+        RUNNER_NT = match params.num_threads {
+            NumThreads::Auto => 0,
+            NumThreads::Max(n) => n.get(),
+        };
+        match params.chunk_size {
+            ChunkSize::Auto => {
+                RUNNER_CS_KIND = 0;
+                RUNNER_CS_VAL = 0;
+            }
+            ChunkSize::Min(x) => {
+                RUNNER_CS_KIND = 1;
+                RUNNER_CS_VAL = x.get();
+            }
+            ChunkSize::Exact(x) => {
+                RUNNER_CS_KIND = 2;
+                RUNNER_CS_VAL = x.get();
+            }
+        }
+    }
+}
+
+pub fn runner_got(params: Params) -> bool {
+    unsafe {
+        let nt = match params.num_threads {
+            NumThreads::Auto => 0,
+            NumThreads::Max(n) => n.get(),
+        };
+        let (k, v) = match params.chunk_size {
+            ChunkSize::Auto => (0, 0),
+            ChunkSize::Min(x) => (1, x.get()),
+            ChunkSize::Exact(x) => (2, x.get()),
+        };
+        RUNNER_NT == nt && RUNNER_CS_KIND == k && RUNNER_CS_VAL == v
+    }
+}
 
 /// spawn_log_ok(params, len0, S) of contracts/runner.vspec, as assumptions on the harness-chosen log
 fn assume_spawn_log_ok(params: Params, len0: Option<usize>) {
     unsafe {
         RUNNER_CALLS += 1;
-        RUNNER_PARAMS = Some(params);
+        record_params(params);
         let k = NWORKERS;
         kani::assume(1 <= k && k <= MAXT);
         if let NumThreads::Max(n) = params.num_threads {
@@ -30,9 +103,9 @@ fn assume_spawn_log_ok(params: Params, len0: Option<usize>) {
         }
         let mut i = 0;
         while i < k {
-            kani::assume(CHUNK[i] >= 1);
+            kani::assume(chunk_of(i) >= 1);
             if let ChunkSize::Exact(x) = params.chunk_size {
-                kani::assume(CHUNK[i] == x.get());
+                kani::assume(chunk_of(i) == x.get());
             }
             i += 1;
         }
@@ -49,7 +122,7 @@ where
     let mut t = 0;
     while t < k {
         unsafe { CUR = t };
-        thread_task(unsafe { CHUNK[t] });
+        thread_task(chunk_of(t));
         t += 1;
     }
     unsafe { CUR = 0 };
@@ -68,7 +141,7 @@ where
     let mut t = 0;
     while t < k {
         unsafe { CUR = t };
-        out.push(thread_task(unsafe { CHUNK[t] }));
+        out.push(thread_task(chunk_of(t)));
         t += 1;
     }
     unsafe { CUR = 0 };
@@ -88,7 +161,7 @@ where
     let mut t = 0;
     while t < k {
         unsafe { CUR = t };
-        let v = thread_task(unsafe { CHUNK[t] });
+        let v = thread_task(chunk_of(t));
         acc = match acc {
             None => Some(v),
             Some(a) => Some(reduce(a, v)),
@@ -132,29 +205,41 @@ where
 
 /// precondition of the merge (contracts/merge.vspec): every vector strictly increasing in key,
 /// keys pairwise distinct across vectors. Checked here on what the real `task` functions produced.
+fn assert_increasing<Out, Key: Copy + PartialOrd>(v: &Vec<(Key, Out)>) {
+    let mut i = 1;
+    while i < v.len() {
+        assert!(v[i - 1].0 < v[i].0, "C01: merge precondition violated: keys of one worker are not strictly increasing");
+        i += 1;
+    }
+}
+
+fn assert_disjoint<Out, Key: Copy + PartialOrd>(x: &Vec<(Key, Out)>, y: &Vec<(Key, Out)>) {
+    let mut a = 0;
+    while a < x.len() {
+        let mut b = 0;
+        while b < y.len() {
+            assert!(x[a].0 != y[b].0, "C01: merge precondition violated: two workers produced the same key");
+            b += 1;
+        }
+        a += 1;
+    }
+}
+
 fn assert_merge_pre<Out, Key: Copy + PartialOrd>(vectors: &Vec<Vec<(Key, Out)>>) {
+    // written out for at most MAXT == 3 vectors (nested generic loops multiply the unwinding cost)
     let n = vectors.len();
-    let mut v = 0;
-    while v < n {
-        let mut i = 1;
-        while i < vectors[v].len() {
-            assert!(vectors[v][i - 1].0 < vectors[v][i].0, "merge precondition: keys strictly increasing per worker");
-            i += 1;
-        }
-        let mut w = v + 1;
-        while w < n {
-            let mut a = 0;
-            while a < vectors[v].len() {
-                let mut b = 0;
-                while b < vectors[w].len() {
-                    assert!(vectors[v][a].0 != vectors[w][b].0, "merge precondition: keys distinct across workers");
-                    b += 1;
-                }
-                a += 1;
-            }
-            w += 1;
-        }
-        v += 1;
+    assert!(n <= MAXT);
+    if n >= 1 {
+        assert_increasing(&vectors[0]);
+    }
+    if n >= 2 {
+        assert_increasing(&vectors[1]);
+        assert_disjoint(&vectors[0], &vectors[1]);
+    }
+    if n >= 3 {
+        assert_increasing(&vectors[2]);
+        assert_disjoint(&vectors[0], &vectors[2]);
+        assert_disjoint(&vectors[1], &vectors[2]);
     }
 }
 
